@@ -20,6 +20,8 @@ direction (known finding C14-tree-rank-distance): `tall_root_overlaps_child`.
 import AdaptaVerif.Lemmas.TreeLayoutSym
 import AdaptaVerif.Lemmas.TreeLayoutPerm
 import AdaptaVerif.Lemmas.TreeLayoutRot
+import AdaptaVerif.Lemmas.TreeLayoutDepth
+import AdaptaVerif.Lemmas.TreeLayoutTight
 namespace AdaptaVerif.Props.C19Layout
 open AdaptaVerif.Model.TreeLayout AdaptaVerif.Lemmas.TreeLayout
 
@@ -67,6 +69,17 @@ theorem siblings_separated (cfg : Cfg) (st : St) (t : Lay) :
       (st.positiveNext = true → x.2.hi + 2 * cfg.nodeSep ≤ x.1.lo) ∧
       (st.positiveNext = false → x.1.hi + 2 * cfg.nodeSep ≤ x.2.lo) :=
   sideMoved_sep cfg st t
+
+/-- … and the placement is tight: unless the start value of the running max (`DBL_MIN`) resp. min (`DBL_MAX`)
+    wins, some common rank has a gap of exactly `2·nodeSep` (the subtree is pushed against what is there). -/
+theorem siblings_tight (cfg : Cfg) (st : St) (t : Lay) :
+    (st.positiveNext = true →
+      sideRootPos cfg st t = dblMin ∨
+      ∃ x ∈ (sideMoved cfg st t).levels.zip st.rest, x.2.hi + 2 * cfg.nodeSep = x.1.lo) ∧
+    (st.positiveNext = false →
+      sideRootPos cfg st t = dblMax ∨
+      ∃ x ∈ (sideMoved cfg st t).levels.zip st.rest, x.1.hi + 2 * cfg.nodeSep = x.2.lo) :=
+  sideMoved_tight cfg st t
 
 /-- Node form: in any loop state satisfying the invariant, every node `m` already placed on a rank and every
     node `n` of the subtree now placed on that rank are `2·nodeSep` apart (`≥ nodeSep` as `nodeSep ≥ 0`). -/
@@ -244,6 +257,23 @@ theorem symmetricLayout_east_eq_transpose_south (ns rs : Rat) (convex : Bool) (i
 example : (symmetricLayout ⟨.east, 5, 20⟩ true 0 8 10 (southEast.mapForest exKidsA)).nodes.map (fun n => (n.id, n.c.x, n.c.y))
     = (symmetricLayout ⟨.south, 5, 20⟩ true 0 10 8 exKidsA).nodes.map (fun n => (n.id, n.c.y, n.c.x)) := by
   decide +kernel
+
+/-! ### (6b) the totalised equation of `overlay` is never used
+
+`overlay` keeps a subtree's deeper ranks when the parent has no rank for them (instead of dropping nodes or
+indexing out of bounds like the C++ would).  That equation is dead: the parent pre-allocates
+`m_depth = 1 + max c-tree depth` ranks and every step keeps that number. -/
+
+theorem rank_count (cfg : Cfg) (id : Nat) (w h : Rat) (ordered : List Lay) (c : Bool) :
+    (placeAll cfg id w h ordered c).levels.length = maxDepth ordered + 1 :=
+  placeAll_levels_length cfg id w h ordered c
+
+/-- at the moment any c-tree `t` of the placement sequence `pre ++ t :: post` is placed, the parent state has
+    at least as many ranks below the root as `t` has ranks -/
+theorem overlay_second_equation_unused (cfg : Cfg) (id : Nat) (w h : Rat) (c : Bool) (pre post : List Lay) (t : Lay) :
+    t.levels.length ≤
+      (pre.foldl (place cfg) (initSt cfg id w h (maxDepth (pre ++ t :: post)) c)).rest.length :=
+  placeAll_overlay_total cfg id w h c pre post t
 
 /-! ### (7) a quirk of the code as coded (outside the C19 property text; recorded because the model has it)
 
